@@ -31,10 +31,10 @@ ASSUMPTIONS = [
     "continuous programs: equality of laws is observed through mixed moments of the source variables up to total degree 3 only",
     "abstracted conditions (_prob symbols) are outside the oracle: those stages are counted inconclusive",
 ]
-TIMEOUT = {"quick": 40, "thorough": 120}
-DEADLINE = {"quick": 100, "thorough": 1500}
+TIMEOUT = {"quick": 25, "thorough": 120}
+DEADLINE = {"quick": 70, "thorough": 1500}
 MIN_DECIDING = {"quick": 40, "thorough": 300}
-NCASES = {"quick": 220, "thorough": 4000}
+NCASES = {"quick": 200, "thorough": 4000}
 CONFIGS = [{}, {"cond2arithm": True}, {"transform_categoricals": True}, {"cond2arithm": True, "transform_categoricals": True}]
 
 
@@ -44,7 +44,7 @@ def generate(seed, tier):
         cs = K.harness_seed(seed, ID, i)
         rng = random.Random(cs)
         profile = rng.choice(["nested", "nested", "multiassign", "multiassign", "guarded", "guarded", "discrete", "mixed",
-                              "continuous", "linear", "symbolic", "delay", "counter"])
+                              "continuous", "linear", "symbolic", "delay", "counter", "abstract"])
         prog, feats, meta = G.generate(cs, profile)
         params, inits = G.instantiate_params(rng, meta, prog)
         cont = bool(meta["draws"])
@@ -96,6 +96,26 @@ def compare_summaries(src, stg, names_src, names_common):
                 return n, f"joint law differs at boundary n={n}: (state over {names_common}, P_source, P_stage) = {[(tuple(map(str, k)), x, y) for k, x, y in diff]}"
         return None
     return "kind-mismatch"
+
+
+def compare_laws(seng, sd, eng, dd, src_vars, names, discrete, res):
+    """compare the law of the stage program (eng, dd) with the source (seng, sd) over `names`; returns None or (n, message)"""
+    if discrete:
+        ssum = ("exact", [seng.marginal(d, src_vars) for d in sd])
+        if all(eng.is_discrete_dist(d) for d in dd):
+            tsum = ("exact", [eng.marginal(d, names) for d in dd])
+            res["comparisons"] += len(dd)
+            return compare_summaries(ssum, tsum, src_vars, names)
+        return (0, "stage program has continuous values although the source is discrete")
+    deg = 3 if len(names) <= 3 else 2
+    monos, stab = moments_table(seng, sd, names, deg)
+    _, ttab = moments_table(eng, dd, names, deg)
+    for n in range(len(sd)):
+        for m, a, b in zip(monos, stab[n], ttab[n]):
+            res["comparisons"] += 1
+            if not P.values_equal(b, a, rel_tol=None if isinstance(a, Fraction) and isinstance(b, Fraction) else 1e-25):
+                return (n, f"E[{P.monom_str(m)}] at boundary n={n}: source {P.val_str(a)} vs stage {P.val_str(b)}")
+    return None
 
 
 def run_case(case, tier):
@@ -152,10 +172,27 @@ def run_case(case, tier):
             continue
         if not common:
             continue
+        stage_params = dict(params)
+        abst = st.extra.get("abstracted")
+        if abst:
+            okp = True
+            for pname, c in abst.items():
+                pv = K.prob_of_condition(c, prog, params)
+                if pv is None:
+                    okp = False
+                    break
+                stage_params[pname] = pv
+            if not okp:
+                skipped += 1
+                res["extra"]["stage-abstraction-outside-oracle"] = res["extra"].get("stage-abstraction-outside-oracle", 0) + 1
+                continue
+        elif abst is None:
+            skipped += 1
+            continue
         for mode in ("plain", "scrambled"):
             try:
                 ai = S.aux_inits(st.ast, set(src_vars), inits, salt=0 if mode == "plain" else 3)
-                eng = Engine(st.ast, params, ai, max_states=max_states,
+                eng = Engine(st.ast, stage_params, ai, max_states=max_states,
                              scramble=S.make_scrambler(set(src_vars)) if mode == "scrambled" else None)
                 dd = eng.run(N)
             except (Unsupported, CapExceeded, laws.Divergent) as e:
@@ -168,33 +205,34 @@ def run_case(case, tier):
                                           "detail": f"program after {st.name} is ill-defined at a reachable state ({mode}): {e}"})
                 first_bad = first_bad or st.name
                 break
-            bad = None
-            if discrete:
-                ssum = ("exact", [seng.marginal(d, src_vars) for d in sd])
-                if all(eng.is_discrete_dist(d) for d in dd):
-                    tsum = ("exact", [eng.marginal(d, common) for d in dd])
-                    bad = compare_summaries(ssum, tsum, src_vars, common)
-                    res["comparisons"] += len(dd)
-                else:
-                    bad = (0, "stage program has continuous values although the source is discrete")
-            else:
-                deg = 3 if len(common) <= 3 else 2
-                monos, stab = moments_table(seng, sd, common, deg)
-                _, ttab = moments_table(eng, dd, common, deg)
-                for n in range(len(sd)):
-                    for m, a, b in zip(monos, stab[n], ttab[n]):
-                        res["comparisons"] += 1
-                        if not P.values_equal(b, a, rel_tol=None if isinstance(a, Fraction) and isinstance(b, Fraction) else 1e-25):
-                            bad = (n, f"E[{P.monom_str(m)}] at boundary n={n}: source {P.val_str(a)} vs stage {P.val_str(b)}")
-                            break
-                    if bad:
-                        break
+            bad = compare_laws(seng, sd, eng, dd, src_vars, common, discrete, res)
+            abstracted_vars = set()
+            if bad and abst:
+                # the abstraction changes the joint law with the variables of the abstracted condition by design (known
+                # finding); anything that still differs once those variables are projected away is a different defect
+                from ..lang.ast import cond_vars
+                for c in abst.values():
+                    cond_vars(c, abstracted_vars)
+                # ... and everything computed from them (y = y + u is correlated with the condition on u as well)
+                from ..lang.ast import rhs_vars
+                changed = True
+                while changed:
+                    changed = False
+                    for a in K._all_assigns(prog.body):
+                        if a[1] not in abstracted_vars and rhs_vars(a[2]) & abstracted_vars:
+                            abstracted_vars.add(a[1])
+                            changed = True
+                reduced = [v for v in common if v not in abstracted_vars]
+                bad2 = compare_laws(seng, sd, eng, dd, src_vars, reduced, discrete, res) if reduced else None
+                if bad2:
+                    bad = bad2
+                    abstracted_vars = None  # not explained by the abstraction
             if bad:
                 n, msg = bad if isinstance(bad, tuple) else (None, str(bad))
                 kind = "law-changed" if mode == "plain" else "aux-carries-information"
                 v = {"kind": kind, "stage": st.name, "stage_index": st.index, "mode": mode, "n": n,
                      "detail": f"after pass #{st.index} {st.name} ({mode} run, settings {cfg}): {msg}"}
-                v["key"] = diagnose.classify_stage_violation(case, v, st, stages)
+                v["key"] = diagnose.classify_stage_violation(case, v, st, stages) if abstracted_vars else None
                 res["violations"].append(v)
                 first_bad = first_bad or st.name
                 break
